@@ -189,9 +189,9 @@ func (c *Ctx) contractCall(fr *Frame, st *State, reach T, key string, ct *Contra
 			locs = append(locs, env.designator(d)...)
 		}
 	}
-	c.havoc(st, locs)
 	ntop := c.sc.fresh("top", sInt)
 	c.sc.assume(ge(ntop, st.top))
+	c.havoc(st, locs, ntop)
 	st.top = ntop
 	res := c.freshVal("r."+smtSym(site), sig.Results(), ntop)
 	post := &Env{c: c, pkg: env.pkg, vars: map[string]Val{}, st: st, old: pre, oldTop: pre.top, at: key}
@@ -362,6 +362,7 @@ func (c *Ctx) builtinCall(fr *Frame, st *State, reach T, b *ssa.Builtin, cc *ssa
 		c.nilMapEmpty(st, mt)
 		// delete on a nil map is a no-op; model by guarding
 		m := args[0].one()
+		c.msumDeleteFact(st, mt, m, args[1].one())
 		ks := keySortOfMap(mt)
 		dk := mapDomKey(mt)
 		ds := arr(sInt, arr(ks, sBool))
